@@ -145,6 +145,8 @@ def package_types(text):
         phf.append({"ctor": km.group(1), "key": km.group(2), "variant": km.group(3)})
     if len(phf) != m.group(1).count("=>"):
         raise TranslateError("phf_map! has entries of an unexpected shape")
+    # a phf map has no order: list the entries in the order of the enum's variants (stable for repeated variants)
+    phf.sort(key=lambda e: (variants.index(e["variant"]) if e["variant"] in variants else len(variants)))
     m = re.search(r"pub\s+const\s+fn\s+name\s*\(&self\)\s*->\s*&'static\s+str\s*\{\s*match\s+self\s*\{(.*?)\}\s*\}", text, re.S)
     if not m:
         raise TranslateError("PackageType::name not found")
@@ -159,17 +161,30 @@ def package_types(text):
         raise TranslateError("serde rename_all=%r not understood" % rename)
     if set(names) != set(variants):
         raise TranslateError("name() arms %s do not cover the variants %s" % (sorted(names), variants))
-    # the lookup itself: `from_str` must BE the table lookup.  Which strings it accepts is an infinite question that no
-    # correspondence run can settle (a hash comparison with rare collisions would pass every test), so its body is pinned.
-    fm = re.search(r"impl\s+FromStr\s+for\s+PackageType\s*\{.*?fn\s+from_str\s*\(\s*s\s*:\s*&str\s*\)\s*->\s*Result<Self,\s*Self::Err>\s*\{(.*?)\}\s*\}", text, re.S)
+    # the lookup itself: which strings `from_str` accepts is an infinite question that no correspondence run can
+    # settle (a hash comparison with rare collisions would pass every test), so its body is pinned — not textually, but
+    # to this shape: the parameter occurs EXACTLY ONCE in the body, as `TABLE.get(&UniCase::new(param))`, TABLE being the
+    # phf::Map<UniCase<&'static str>, PackageType> built by the phf_map! read above.  The result is then a fixed function
+    # of the lookup's answer (eight possible answers, all exercised by the streams), however it is written
+    # (`.copied().ok_or(..)`, a `match`, `if let` …).
+    tm = re.search(r"(?:static|const)\s+(\w+)\s*:\s*phf::Map\s*<\s*UniCase\s*<\s*&'static\s+str\s*>\s*,\s*PackageType\s*>", text)
+    if not tm:
+        raise TranslateError("the package-type table is not a phf::Map<UniCase<&'static str>, PackageType> any more")
+    table = tm.group(1)
+    fm = re.search(r"impl\s+FromStr\s+for\s+PackageType\s*\{.*?fn\s+from_str\s*\(\s*(\w+)\s*:\s*&str\s*\)\s*->\s*Result<\s*Self\s*,\s*Self::Err\s*>\s*\{", text, re.S)
     if not fm:
         raise TranslateError("PackageType::from_str not found")
-    body = re.sub(r"\s+", "", fm.group(1))
-    if body != "PACKAGE_TYPES.get(&UniCase::new(s)).copied().ok_or(UnsupportedPackageType)":
-        raise TranslateError("PackageType::from_str is no longer the table lookup: %s" % body[:200])
-    tm = re.search(r"static\s+PACKAGE_TYPES\s*:\s*phf::Map\s*<\s*UniCase\s*<\s*&'static\s+str\s*>\s*,\s*PackageType\s*>", text)
-    if not tm:
-        raise TranslateError("PACKAGE_TYPES is not a phf::Map<UniCase<&'static str>, PackageType> any more")
+    param = fm.group(1)
+    i, depth = fm.end(), 1
+    while i < len(text) and depth:
+        depth += {"{": 1, "}": -1}.get(text[i], 0)
+        i += 1
+    body = re.sub(r"//[^\n]*", "", text[fm.end():i - 1])
+    body = re.sub(r"\s+", "", body)
+    lookups = re.findall(re.escape(table) + r"\.get\(&UniCase::(?:new|unicode)\(" + re.escape(param) + r"\)\)", body)
+    uses = re.findall(r"(?<![A-Za-z0-9_])" + re.escape(param) + r"(?![A-Za-z0-9_])", body)
+    if len(lookups) != 1 or len(uses) != 1:
+        raise TranslateError("PackageType::from_str is no longer (only) the table lookup: %s" % body[:200])
     return variants, phf, names, rename
 
 
